@@ -2,6 +2,7 @@
 package c15
 
 import (
+	"html/template"
 	"errors"
 	"strconv"
 	"strings"
@@ -18,6 +19,7 @@ func init() {
 	vrt.Register("C15_input_ends_in_tag", InputEndsInTag)
 	vrt.Register("C15_first_line_of_multiline_tag", FirstLineOfMultilineTag)
 	vrt.Register("C15_two_faulty_tags", TwoFaultyTags)
+	vrt.Register("C15_after_a_block_has_run", AfterABlockHasRun)
 }
 
 func itoa(n int) string { return strconv.Itoa(n) }
@@ -56,6 +58,8 @@ var failingTags = []string{
 	"<%= {\"a\" 1} %>",
 	"<%= [`a` 1] %>",
 	"<%= \"a\" \"b\" ) %>",
+	"<%= 99999999999999999999 %>",
+	"<%= 1" + strings.Repeat("0", 400) + ".0 %>",
 }
 
 const fillerAlphabet = "\n\r x"
@@ -298,5 +302,51 @@ func TwoFaultyTags() {
 			vrt.Assert(r0 == rk, "shifting changes nothing else in the error")
 		}
 	}
+	vrt.Cover("done")
+}
+
+// ---- the failing statement comes after a function body, a helper block, a
+// loop or an if has run (on earlier lines, or on later lines of its own tag):
+// the error names the line of the tag with the failing statement, not a line
+// inside what ran before
+func AfterABlockHasRun() {
+	pre := preamble(1)
+	gap := nl(vrt.IntRange(1, 3))
+	type cs struct {
+		before string // runs first, spans lines
+		fail   string // one-line failing tag
+	}
+	cases := []cs{
+		{"<% let f = fn() {\n return 1\n } %>", "<%= f() / 0 %>"},
+		{"<% let f = fn(x) { return x } %>", "<%= f(1) + nope %>"},
+		{"<% let f = fn() {\n return 1\n } %>", "<%= [f(), nope] %>"},
+		{"<%= blk() { %>\n\nb<% } %>", "<%= fail() %>"},
+		{"<%= for (v) in xs { %>\n<%= v %>\n<% } %>", "<%= xs[9] %>"},
+		{"<%= if (true) { %>\n\n<% } %>", "<%= 1 / 0 %>"},
+		{"<% let f = fn() { return 1 } %>", "<%= if (f() == 1) { %>x<% } %><%= one.Nope %>"},
+	}
+	c := cases[vrt.Choice(len(cases))]
+	var in string
+	want := 0
+	switch vrt.Choice(2) {
+	case 0: // the failing tag on its own later line
+		in = pre + c.before + gap + c.fail
+		want = 1 + newlines(pre) + newlines(c.before) + newlines(gap)
+	default: // the failing tag first uses what ran before on the same line
+		in = pre + c.before + c.fail + gap + "tail"
+		want = 1 + newlines(pre) + newlines(c.before)
+	}
+	ctx := newCtx()
+	ctx.Set("blk", func(help plush.HelperContext) (template.HTML, error) {
+		s, err := help.Block()
+		return template.HTML(s), err
+	})
+	vrt.Note("input", in)
+	_, err := plush.Render(in, ctx)
+	vrt.Assert(err != nil, "a faulty template is an error")
+	msg := err.Error()
+	vrt.Note("error", msg)
+	n, _ := lineOf(msg)
+	vrt.Assert(n == want, "N is the line of the tag with the failing statement, whatever ran before it")
 	vrt.Cover("done")
 }
